@@ -8,6 +8,19 @@ def jobs(tier):
     # (a)/(b) encode -> decode -> encode fixpoint and tiling: the roundtrip harness (shared with C07), RV32/RVC from the bytes side
     for j in C07.jobs(tier, ["riscv"] if tier == "quick" else ["riscv", "msp430", "6502", "z80", "8051", "avr8", "stm8"]):
         js.append(j)
+    # (a)/(b) from the assembler side: instruction forms with a symbolic operand
+    from cpus import CPUS
+    FX = [("msp430", "msp430", "mov.w #", ", r5"), ("msp430", "msp430", "add.w ", "(r4), r6"), ("msp430", "msp430", "mov.w &", ", r5"), ("msp430", "msp430", "jne ", ""), ("msp430", "msp430", "mov.w r5, ", ""),
+          ("riscv", "riscv", "beq x10, x11, ", ""), ("riscv", "riscv", "bltu x5, x6, ", ""), ("riscv", "riscv", "jal x1, ", ""), ("riscv", "riscv", "addi x5, x6, ", ""), ("riscv", "riscv", "lui x5, ", ""),
+          ("riscv", "riscv", "lw x5, ", "(x6)"), ("riscv", "riscv", "sw x5, ", "(x6)"), ("riscv", "riscv", "slli x5, x6, ", ""), ("riscv", "riscv", "jalr x1, x5, ", ""), ("riscv", "riscv", "auipc x5, ", "")]
+    if tier == "thorough":
+        FX += [("6502", "6502", "lda #", ""), ("6502", "6502", "bne ", ""), ("6502", "6502", "lda ", ",x"), ("z80", "z80", "ld a, ", ""), ("z80", "z80", "jr ", ""), ("z80", "z80", "ld hl, ", ""),
+               ("8051", "8051", "mov A, #", ""), ("8051", "8051", "sjmp ", ""), ("avr8", "avr8", "ldi r16, ", ""), ("avr8", "avr8", "rjmp ", ""), ("stm8", "stm8", "ld A, #", ""), ("stm8", "stm8", "jra ", "")]
+    for k, (key, cpu, pre, post) in enumerate(FX):
+        c = CPUS[key]
+        d = {"CPUNAME": '"%s"' % c["cpu"], "PRE": '"%s"' % pre, "POST": '"%s"' % post, "DISASM_FN": c["disasm"], "DISASM_HDR": '"%s"' % c["hdr"], "FLAGS": c["flags"], "BPA": 2 if key in ("avr8",) else 1}
+        nm = (pre + "V" + post).replace(" ", "_").replace(",", "").replace("#", "i").replace("&", "a").replace("(", "L").replace(")", "R")
+        js.append(vp.Job("asm_fixpoint.%s.%s" % (key, nm), "asm_fixpoint.cpp", d, max_paths=200000, timeout=300, min_completed=2, allow_partial=True))
     js.append(vp.Job("msp430_enc.jumps", "msp430_enc.cpp", {"KIND": 3}, max_paths=400000, timeout=420, min_completed=8))
     return js
 def main(tier):
